@@ -597,6 +597,357 @@ def oracle_bb(c):
     return fails, wires
 
 
+# ---- reconfiguration while running (oracle only, not replayed by the model) ---------------------------
+# The public configuration attributes of a running wire - `loss_rate`, `delay_dist`; for a Cable those of its `wire1` / `wire2` -
+# are reassigned between packets by another process of the simulation (an operator that wakes at scripted instants).  The Lean
+# models take one fixed configuration, so these cases are judged by a direct oracle alone.  READING: every clause is judged
+# against the value the attribute has at the instant the clause refers to - the loss clause against the `loss_rate` in force when
+# the packet's discard decision is made (the wire decides when it takes the packet from its store: at max(entry, the instant its
+# predecessor was delivered or discarded)), the delay clause against the `delay_dist` installed at that same instant (the delay is
+# drawn then).  Where that leaves a case open the oracle stands down: a packet already in flight when its wire's `delay_dist` is
+# re-pointed is not judged on its delivery instant; a wire on which a reconfiguration falls into the very instant of an arrival,
+# a take or a delivery is not judged at all (the generator keeps the operator's instants off the traffic's grid).
+
+ASSUMPTIONS.append(
+    'reconfigured cases (oracle only): `loss_rate` / `delay_dist` of a running wire (of either wire of a cable) are reassigned by an operator process at '
+    'instants off the traffic grid; each clause is judged with the value in force at the instant the wire takes the packet from its store (where it decides '
+    'about the loss and draws the delay). The harness supplies the `random.uniform` values per wire from a seeded sequence of its own (the k-th decision a '
+    'wire makes under a truthy loss rate consumes the k-th value); when a wire stops drawing altogether although its loss rate is truthy, the value the '
+    'sequence would have supplied decides (discarded iff value < loss rate). The oracle stands down on the draw-based rule when draws cannot be '
+    'attributed (extra draws, a cable wire without a public `action`), on the delivery instant of a packet in flight while `delay_dist` is re-pointed, and '
+    'on a wire for which a reconfiguration instant coincides with an arrival / take / delivery instant')
+
+RC_LOSSLESS = [None, None, 0, 0.0]
+RC_GAPS = [0, 0, 0.1, 0.2, 0.5, 1, 1, 2, 3]
+
+
+def reconf_case(rng, cid):
+    topo = 'cable' if rng.random() < 0.3 else 'wire'
+    nw = 2 if topo == 'cable' else 1
+    grid = rng.random() < 0.3
+    def lossy():
+        if grid:
+            return rng.choice([0.125, 0.25, 0.5, 0.75, 0.875, 1, 1.0])
+        return rng.choice([1, 1.0, 1.0, 0.5, 0.1, 0.9, 0.3, round(rng.random(), 3)])
+    loss0 = rng.choice(RC_LOSSLESS) if rng.random() < 0.55 else lossy()
+    def sources(n):
+        out = []
+        for _ in range(n):
+            script = []
+            for _ in range(rng.randint(5, 14)):
+                gap = rng.choice(RC_GAPS + [round(rng.random() * 4, 3)])
+                script.append((gap, [(rng.randrange(3), rng.choice([40, 100, 1500])) for _ in range(rng.choice([1, 1, 1, 2, 3]))]))
+            out.append(script)
+        return out
+    c = {'cid': f'R{cid}', 'kind': 'reconf', 'topo': topo, 'loss': loss0, 'rseed': rng.randrange(1 << 30), 'grid_draws': grid,
+         'sources': sources(rng.randint(1, 2))}
+    if topo == 'cable':
+        c['sources2'] = sources(rng.randint(0, 2))
+    # scripted delay callables: #0 is the constructor's (a cable hands it to both directions, whose draws from it cannot be told
+    # apart by position: a constant); every further one is installed on one wire only: #j on wire (j - 1) mod (number of wires)
+    c['dists'] = [[rng.choice(DELAYS + [0.7, 0.3])] if topo == 'cable' else gen_delays(rng)[1]]
+    c['dists'] += [gen_delays(rng)[1] for _ in range(nw * rng.randint(1, 2))]
+    span = max(sum(g for g, _ in s) for s in c['sources'] + c.get('sources2', [])) + 1.0
+    cur_loss, cur_dist = [loss0] * nw, [0] * nw
+    def change():
+        w = rng.randrange(nw)
+        if rng.random() < 0.65:
+            old = cur_loss[w]
+            if not old:                      # None / 0 -> p, 1.0 (now and then to another spelling of "no loss")
+                new = lossy() if rng.random() < 0.85 else rng.choice(RC_LOSSLESS)
+            else:                            # p -> 0 / None, p -> q, p -> 1.0
+                new = rng.choice(RC_LOSSLESS) if rng.random() < 0.4 else lossy()
+            cur_loss[w] = new
+            return [w, 'loss_rate', new]
+        mine = [j for j in range(len(c['dists'])) if j == 0 or (j - 1) % nw == w]
+        new = rng.choice([j for j in mine if j != cur_dist[w]] or mine)
+        cur_dist[w] = new
+        return [w, 'delay_dist', new]
+    # assigned after construction, before the simulation starts
+    c['pre'] = [change()] if rng.random() < 0.15 else []
+    # the operator's instants: raw floats, off the grid of the arrivals (sums of the gaps) and of the deliveries (arrival + delay)
+    instants = sorted(rng.uniform(0.0, span) for _ in range(rng.randint(1, 4)))
+    c['reconf'] = [[t] + change() for t in instants]
+    return c
+
+
+class RWire:
+    """what the harness knows about one reconfigured wire: its own puts, the deliveries at the far end, the values its stand-in
+    `random` supplied, the delays its scripted callables returned"""
+
+    def __init__(self, name):
+        self.name, self.dev = name, None
+        self.arrivals, self.deliveries = [], []      # (instant, packet)
+        self.draws = []                              # (instant, value) of `random.uniform` attributed to this wire
+        self.delays = []                             # (instant, callable number, delay)
+
+
+class RCRandom:
+    """stands in for the `random` module inside onl.netdev.wire: `uniform` answers from a seeded sequence PER WIRE (the caller is
+    the wire whose public `action` is the active process; a lone wire is the only caller there can be)"""
+    Random, SystemRandom = random.Random, random.SystemRandom
+
+    def __init__(self, env, c, wires):
+        self.env, self.grid, self.wires = env, c.get('grid_draws', False), wires
+        self.streams = [rc_stream(c, k) for k in range(len(wires))]
+        self.other = random.Random(f"{c['rseed']}-x")
+        self.unattributed = 0
+
+    def __getattr__(self, name):
+        if name.startswith('__'):
+            raise AttributeError(name)
+        return getattr(random, name)
+
+    def who(self):
+        proc = self.env.active_process
+        for k, w in enumerate(self.wires):
+            if proc is not None and getattr(w.dev, 'action', None) is proc:
+                return k
+        return 0 if len(self.wires) == 1 else None
+
+    def uniform(self, a, b):
+        k = self.who()
+        if k is None:
+            self.unattributed += 1
+            x = rc_next(self.other, self.grid)
+        else:
+            x = rc_next(self.streams[k], self.grid)
+            self.wires[k].draws.append((self.env.now, x))
+        return a + (b - a) * x
+
+
+def rc_stream(c, k):
+    return random.Random(f"{c['rseed']}-{k}")
+
+
+def rc_next(stream, grid):
+    return stream.randrange(8) / 8 if grid else stream.random()
+
+
+def run_reconf(c):
+    """-> (wires: [RWire], applied: [(instant or -1.0 for "before the run", wire, attribute, value)], raised, unattributed draws)"""
+    env = Environment()
+    nw = 2 if c['topo'] == 'cable' else 1
+    wires = [RWire('the wire' if nw == 1 else f'wire{k + 1} of the cable') for k in range(nw)]
+    rnd = RCRandom(env, c, wires)
+    counts = [0] * len(c['dists'])
+    stray = [0]
+    def mk(j):
+        seq = c['dists'][j]
+        def dist():
+            d = seq[counts[j] % len(seq)]
+            counts[j] += 1
+            k = rnd.who()
+            if k is None:
+                stray[0] += 1
+            else:
+                wires[k].delays.append((env.now, j, d))
+            return d
+        return dist
+    dists = [mk(j) for j in range(len(c['dists']))]
+    applied, raised = [], None
+    old = wire_mod.random
+    wire_mod.random = rnd
+    try:
+        if nw == 1:
+            wires[0].dev = Wire(env, dists[0], c['loss'])
+            wires[0].dev.out = BBEnd(env, wires[0])
+            entries = [wires[0].dev.put]
+        else:
+            cable = Cable(env, dists[0], c['loss'])
+            a, b = BBEnd(env, wires[1]), BBEnd(env, wires[0])        # a receives what wire2 delivers
+            cable.set_endpoints(a, b)
+            wires[0].dev, wires[1].dev = cable.wire1, cable.wire2
+            entries = [lambda p: a.out.put(p), lambda p: b.out.put(p)]
+        def assign(t, w, attr, val):
+            setattr(wires[w].dev, attr, dists[val] if attr == 'delay_dist' else val)
+            applied.append((t, w, attr, val))
+        for w, attr, val in c.get('pre') or []:
+            assign(-1.0, w, attr, val)
+        def operator():
+            for t, w, attr, val in c.get('reconf') or []:
+                if t > env.now:
+                    yield env.timeout(t - env.now)
+                assign(env.now, w, attr, val)           # the instant it really happened (t up to rounding)
+        counter = [0]
+        def entry(k):
+            def put(p):
+                wires[k].arrivals.append((env.now, p))
+                entries[k](p)
+            return put
+        for script in c['sources']:
+            env.process(feeder(env, entry(0), script, counter))
+        for script in (c.get('sources2') or []) if nw == 2 else []:
+            env.process(feeder(env, entry(1), script, counter))
+        env.process(operator())
+        with quiet():
+            env.run()
+    except BaseException as x:          # the property says the run never raises
+        raised = f'{type(x).__name__}: {x}'
+    finally:
+        wire_mod.random = old
+    return wires, applied, raised, rnd.unattributed + stray[0]
+
+
+def in_force(mine, attr, t, init):
+    """(value, instant of the assignment or None for the constructor's) of `attr` in force at instant t; mine = [(instant, attr, value)]"""
+    v, since = init, None
+    for r, at, val in mine:
+        if at == attr and r < t:
+            v, since = val, r
+    return v, since
+
+
+def oracle_reconf(c):
+    """-> (failures, statistics).  Restates C10 on wires whose `loss_rate` / `delay_dist` are reassigned while they run, each clause
+    with the value in force when the wire takes the packet from its store:
+    * "with no loss rate every packet is delivered exactly once": a packet taken while `loss_rate` is None / 0 is delivered;
+    * "with loss rate p each packet is ... discarded with probability p, and a discarded packet is never delivered": a packet taken
+      while `loss_rate` = p is discarded iff the value `random.uniform(0, 1)` yields for it is < p (p = 1: always);
+    * "for which the delay distribution yields d": d comes from the callable installed at that instant, and the packet "is delivered
+      at max(a + d, delivery time of the previous packet)"; never reordered, never twice."""
+    st = collections.Counter()
+    fails = []
+    def fail(what, sig):
+        fails.append({'what': what, 'signature': sig})
+    wires, applied, raised, stray = run_reconf(c)
+    if raised:
+        fail(f'the run raised {raised}', 'wire-raised')
+        return fails, st, wires
+    # a scripted callable with more than one value installed on two wires: its draws cannot be told apart by position
+    users = collections.defaultdict(set)
+    for k in range(len(wires)):
+        users[0].add(k)
+    for _, w, attr, val in applied:
+        if attr == 'delay_dist':
+            users[val].add(w)
+    shared = any(len(u) > 1 and len(c['dists'][j]) > 1 for j, u in users.items())
+    for k, w in enumerate(wires):
+        acc, dep = w.arrivals, w.deliveries
+        st['packets'] += len(acc)
+        delivered = {id(p): t for t, p in dep}
+        pos = {id(p): i for i, (_, p) in enumerate(acc)}
+        seq = [pos.get(id(p), -1) for _, p in dep]
+        if len(delivered) != len(dep):
+            fail(f'{w.name}: a packet was delivered twice', 'wire-duplicate')
+            continue
+        if -1 in seq:
+            fail(f'{w.name}: a packet was delivered that never entered', 'wire-foreign')
+            continue
+        if any(x > y for x, y in zip(seq, seq[1:])):
+            fail(f'{w.name}: deliveries are not in arrival order: arrival positions {seq[:20]}', 'wire-order')
+            continue
+        mine = [(r, attr, val) for r, ww, attr, val in applied if ww == k]
+        # the instant the wire takes each packet: max(entry, the instant its predecessor was delivered or - taken and - discarded)
+        takes, free = [], None
+        for a, p in acc:
+            h = a if free is None or a > free else free
+            takes.append(h)
+            free = delivered.get(id(p), h)
+        grid = {a for a, _ in acc} | set(takes) | set(delivered.values())
+        if any(r in grid for r, _, _ in mine):
+            st['wires_stood_down:reconfigured_in_the_instant_of_an_arrival_take_or_delivery'] += 1
+            continue
+        st['wires_judged'] += 1
+        ref, supplied = rc_stream(c, k), []
+        aligned = stray == 0
+        times = stray == 0 and not shared and len(w.delays) == len(dep)
+        kd = nd = lossy_taken = 0
+        prev = None
+        for (a, p), h in zip(acc, takes):
+            got = id(p) in delivered
+            rate, since = in_force(mine, 'loss_rate', h, c['loss'])
+            how = (f'loss_rate = {rate!r} ' + ('(as constructed)' if since is None else 'since before the run' if since < 0 else
+                                               f'since another process assigned it at {since!r}; constructed with {c["loss"]!r}'))
+            who = f'{w.name}: packet {p.packet_id} entered at {a!r} and was taken from the store at {h!r} while {how}'
+            if since is not None and since >= 0:
+                st['packets_taken_after_a_loss_rate_change'] += 1
+            if not rate:
+                if aligned and kd < len(w.draws) and w.draws[kd][0] <= h:
+                    aligned = False                 # a draw without a loss rate: allowed, but positions no longer tell whose draw is whose
+                if not got:
+                    fail(f'{who}: with no loss rate every packet is delivered; it never was', 'wire-reconf-not-delivered')
+                    break
+            else:
+                while len(supplied) <= lossy_taken:
+                    supplied.append(rc_next(ref, c.get('grid_draws', False)))
+                x = src = None
+                if aligned and kd < len(w.draws) and w.draws[kd][0] == h:
+                    x, src = w.draws[kd][1], 'the value random.uniform(0, 1) yielded for it'
+                    kd += 1
+                elif aligned and kd >= len(w.draws):
+                    # the wire has stopped consulting `random` although its loss rate is set: the value the harness's seeded sequence
+                    # supplies to the k-th decision under a loss rate decides
+                    x, src = supplied[lossy_taken], (f'the wire took no draw for it (nor for any later packet); the value the harness\'s seeded sequence supplies '
+                                                    f'to its {lossy_taken + 1}. decision under a loss rate')
+                    st['decisions_without_a_draw'] += 1
+                else:
+                    aligned = False
+                lossy_taken += 1
+                st['packets_taken_under_a_loss_rate'] += 1
+                if rate >= 1:
+                    want_lost, why = True, 'every value of uniform(0, 1) lies below that rate: the packet is discarded'
+                elif x is None:
+                    want_lost = None                # draws cannot be attributed any more: only the certain cases are judged
+                else:
+                    want_lost = x < rate
+                    why = f'{src} is {x!r} {"<" if want_lost else ">="} {rate!r}: the packet is {"discarded" if want_lost else "delivered"}'
+                if want_lost is not None and want_lost == got:
+                    fail(f'{who}: {why}; it was {("delivered at " + repr(delivered[id(p)])) if got else "never delivered"}', 'wire-reconf-loss-rule')
+                    break
+                if not got:
+                    st['discarded'] += 1
+                    if since is not None and since >= 0 and not c['loss']:
+                        st['discarded_on_a_wire_built_lossless'] += 1
+            if not got:
+                continue
+            t = delivered[id(p)]
+            if times:
+                r_, j, d = w.delays[nd]
+                nd += 1
+                jw, jsince = in_force(mine, 'delay_dist', h, 0)
+                if r_ != h:
+                    times = False                    # the delay was not drawn at the take: not attributable by position
+                elif j != jw:
+                    fail(f'{who}: its delay {d!r} was drawn from scripted callable #{j}, but delay_dist was callable #{jw} '
+                         f'{"(the constructor argument)" if jsince is None else f"since {jsince!r}"}', 'wire-reconf-delay-dist')
+                    break
+                elif any(attr == 'delay_dist' and h < r < t for r, attr, _ in mine):
+                    st['packets_in_flight_while_delay_dist_changed:not_judged_on_time'] += 1
+                else:
+                    lit = a + d
+                    want = lit if prev is None or lit > prev else prev
+                    if jsince is not None and jsince >= 0:
+                        st['packets_delayed_by_a_re-pointed_delay_dist'] += 1
+                    if not ulp_close(t, want):
+                        fail(f'{who}, delay {d!r} from callable #{j}, previous delivery {prev!r}: delivered at {t!r}, '
+                             f'max(a + d, previous delivery) = {want!r}', 'wire-reconf-delivery-time')
+                        break
+            prev = t
+        if not aligned:
+            st['wires_with_unattributable_draws'] += 1
+    return fails, st, wires
+
+
+def shrink_reconf(c, sig):
+    """smaller case with the same oracle failure: fewer sources / entries / packets, then fewer reconfigurations"""
+    import copy
+    still = lambda cc: any(g['signature'] == sig for g in oracle_reconf(cc)[0])
+    best = shrink(c, ['sources', 'sources2'], still, budget=200)
+    for key in ('pre', 'reconf'):
+        i = len(best.get(key) or []) - 1
+        while i >= 0:
+            cc = copy.deepcopy(best)
+            del cc[key][i]
+            try:
+                if still(cc):
+                    best = cc
+            except Exception:
+                pass
+            i -= 1
+    return best
+
+
 # ---- BEGIN wirek leg: the Wire as a process on the kernel MODEL (lean/OnlVerif/Net/WireOnK.lean, driver mode `wirek`) ----
 def run_wirek(ctx, cov=None, dis=None, orc=None):
     """Extra leg for Props/C10K.lean: the K program of the Wire, run at Float by the compiled driver, against the real Wire
@@ -748,8 +1099,10 @@ def run(ctx):
     else:
         cases = [gen_case(rng, i) for i in range(600 if ctx.quick else 12000)]
         cases += [bb_case(rng, i) for i in range(240 if ctx.quick else 4000)]
+        cases += [reconf_case(rng, i) for i in range(60 if ctx.quick else 1200)]      # a tenth of the replayed cases
     bbcases = [c for c in cases if c.get('kind') == 'bb']
-    cases = [c for c in cases if c.get('kind') != 'bb']
+    rccases = [c for c in cases if c.get('kind') == 'reconf']
+    cases = [c for c in cases if c.get('kind') not in ('bb', 'reconf')]
     text, allruns = [], {}
     for c in cases:
         runs = run_impl(c)
@@ -823,7 +1176,28 @@ def run(ctx):
                 if f2:
                     f = dict(f2, case=small, shrunk_from=c['cid'])
             bborc.append(f)
-    orc = bborc + orc             # the black-box failures name the clause most directly: they get the replay files
+    rchist, rcorc, rcnontriv = collections.Counter(), [], 0
+    for c in rccases:
+        fs, st, wires = oracle_reconf(c)
+        rchist.update(st)
+        rchist['topo:' + c['topo']] += 1
+        for _, _, attr, val in (c.get('reconf') or []) + [[-1.0] + x for x in c.get('pre') or []]:
+            rchist['assigned:' + attr + (':' + ('None' if val is None else 'zero' if not val else 'one' if val >= 1 else 'p') if attr == 'loss_rate' else '')] += 1
+        # non-trivial: a packet was taken after a reconfiguration of its wire had changed what the property prescribes for it
+        if st['packets_taken_after_a_loss_rate_change'] or st['packets_delayed_by_a_re-pointed_delay_dist']:
+            rcnontriv += 1
+        for f in fs:
+            f['case'] = c
+            if shrunk < 3 and not ctx.replay and f['signature'].startswith('wire-reconf'):
+                shrunk += 1
+                small = shrink_reconf(c, f['signature'])
+                f2 = next((g for g in oracle_reconf(small)[0] if g['signature'] == f['signature']), None)
+                if f2:
+                    f = dict(f2, case=small, shrunk_from=c['cid'])
+            f['trace'] = {w.name: {'entered': [(t, p.packet_id) for t, p in w.arrivals][:60], 'delivered': [(t, p.packet_id) for t, p in w.deliveries][:60]}
+                          for w in (oracle_reconf(f['case'])[2] if f['case'] is not c else wires)}
+            rcorc.append(f)
+    orc = bborc + rcorc + orc     # the black-box failures name the clause most directly: they get the replay files
     cov = {'evaluations': len(cases), 'distinct_nontrivial': nontriv,
            'rule': 'seeded random wire/cable configurations (loss None/0/1/p, delay sequences constant/decreasing/zero/random/dyadic) x arrival workloads '
                    '(1-3 sources per direction, bursts, arrivals while earlier packets propagate, echo traffic on cables); non-trivial = distinct case '
@@ -833,6 +1207,13 @@ def run(ctx):
            'operation_histogram': dict(sorted(hist.items()))}
     cov['oracle_only_cases'] = {'evaluations': len(bbcases), 'what': 'black-box environments of 1-2 wires / cables with identical traffic (put/out/env.run only): '
                                 'order, exact clamping to the previous delivery, loss patterns across devices and across seeds', 'histogram': dict(sorted(bbhist.items()))}
+    cov['reconfigured_oracle_only'] = {
+        'evaluations': len(rccases), 'distinct_nontrivial': rcnontriv,
+        'what': 'a running wire / the two wires of a cable whose public `loss_rate` (None/0 -> p, p -> 0, p -> q, -> 1.0) and `delay_dist` (re-pointed to another '
+                'scripted callable) are reassigned between packets by an operator process (1-4 times, now and then once more before the run); loss rule, '
+                'delivery instant, order and exactly-once judged with the values in force when the wire takes each packet; non-trivial = a packet was taken '
+                'under a reassigned loss rate or delayed by a re-pointed delay_dist', 'histogram': dict(sorted(rchist.items())),
+        'sample': rccases[0] if rccases else None}
     cov.update({'translated': _PREP.get('translated', []), 'generated_files_rewritten': _PREP.get('rewritten', []),
                 'generated_diff_vs_pinned': _PREP.get('diff_vs_pinned', []), 'bridge_theorems': BRIDGES, 'hand_modelled': HAND_MODELLED})
     run_wirek(ctx, cov, dis, orc)            # wirek leg: appends its coverage, disagreements and oracle failures in place
